@@ -12,9 +12,9 @@ import (
 
 func init() {
 	register(&PropSpec{
-		ID: "C08",
+		ID:          "C08",
 		Explanation: "Static necessary conditions for 'no API call blocks forever'. L1 decides the lock-release lemma completely: for every control-flow path of every function in the analysed packages that performs a sync.Mutex/RWMutex/Locker operation, the forward lock-state dataflow over go/ssa (defers applied at RunDefers, summaries for wrappers and deferred closures) shows every acquired lock released before every return, no re-acquisition while held, no release of an unheld lock, and Cond.Wait only with its L held. W1: every sync.Cond waited on while polling a context has a context-triggered waker. S1: every blocking select in a function with a context parameter has a Done() case deriving from it. E1: the closed-connection sentinel of the status wait primitive is feasible.",
-		NotDecided: []string{"wall-clock bounds and the keepalive bound", "blocking inside third-party transports", "bare channel operations between internal goroutines", "deadlock by lock order"},
+		NotDecided:  []string{"wall-clock bounds and the keepalive bound", "blocking inside third-party transports", "bare channel operations between internal goroutines", "deadlock by lock order"},
 		Assumptions: []string{"lock identity is by access path (no pointer analysis): two paths with equal roots and fields denote the same lock within a function and its closures", "functions called through function values or interfaces are lock-balanced (each is checked on its own)"},
 		Rules: func(r *Run) {
 			le := newLockEngine(r.P)
@@ -40,7 +40,7 @@ func ruleL1(r *Run, le *LockEngine) {
 	fnWith, sites := 0, 0
 	for _, fn := range p.Funcs {
 		fi := le.Info(fn)
-		if fi.Events == 0 {
+		if fi.Events == 0 && len(fi.Reports) == 0 {
 			continue
 		}
 		fnWith++
